@@ -8,6 +8,7 @@ package h
 
 import (
 	"fmt"
+	"math"
 	"math/rand"
 	"runtime"
 	"strings"
@@ -55,17 +56,20 @@ func init() {
 func overrunCases(tier string, seed int64) []Case {
 	var out []Case
 	rng := rand.New(rand.NewSource(seed*1999 + 6))
-	reps := 2
+	reps := 4
 	if tier == "thorough" {
 		reps = 60
 	}
+	// the window the raw client announces for the opposite direction in its
+	// new_stream frame: it must have no bearing on what the server accepts
+	announce := []int{65536, 1 << 24, math.MaxUint32, 1000}
 	for r := 0; r < reps; r++ {
 		for _, k := range overrunKinds {
 			for _, dir := range []string{"forward", "reverse"} {
 				if k == "flood-32MiB" && r > 0 && r%10 != 0 {
 					continue
 				}
-				out = append(out, Case{Family: "overrun", Seed: rng.Int63(), Cfg: WorldCfg{Dir: dir}, S: map[string]string{"kind": k}})
+				out = append(out, Case{Family: "overrun", Seed: rng.Int63(), Cfg: WorldCfg{Dir: dir}, S: map[string]string{"kind": k}, P: map[string]int{"announce": announce[r%len(announce)]}})
 			}
 		}
 	}
@@ -84,7 +88,7 @@ func stratify(cs []Case, every int) []Case {
 
 func famOverrun(w *World, c *Case, rng *rand.Rand) {
 	kind := c.s("kind", "plus1")
-	w.SigExtra = kind
+	w.SigExtra = fmt.Sprintf("%s/announce%d", kind, c.p("announce", 65536))
 	w.Wire.JudgeClient = false
 	w.Window.JudgeClient = false
 	rc, err := w.OpenRawClient(true, false)
@@ -103,7 +107,7 @@ func famOverrun(w *World, c *Case, rng *rand.Rand) {
 	for _, f := range msgFramesC2S(0, wrapBytes(GenPayload("by", dirReq, 0, 5)), 16384) {
 		send(f)
 	}
-	send(fNew(1, "verif.Svc/ClientStream", "v", 1, W))
+	send(fNew(1, "verif.Svc/ClientStream", "v", 1, uint32(c.p("announce", W))))
 	w.Wait()
 	// helper: send n bytes of well-formed message data on stream id as one message
 	sendMsg := func(id int64, n int) {
@@ -165,6 +169,7 @@ func famOverrun(w *World, c *Case, rng *rand.Rand) {
 		w.Stat("max_flood_heap_growth", int(growth))
 		if growth > 8<<20 {
 			w.Violate("C06", "memory-not-bounded-under-flood", "flooding %d MiB at a stream whose consumer never reads grew the live heap by %d MiB", total>>20, growth>>20)
+			w.Violate("C09", "memory-not-bounded-under-flood", "flooding %d MiB at a stream whose consumer never reads grew the live heap by %d MiB", total>>20, growth>>20)
 		}
 	}
 	w.Wait()
@@ -185,6 +190,7 @@ func famOverrun(w *World, c *Case, rng *rand.Rand) {
 				code = codes.Code(v.Close.GetStatus().GetCode()).String()
 			}
 			w.Violate("C06", "overrun-not-resource-exhausted", "overrun %s: the overrunning RPC got %d close frame(s), status %s; want exactly one ResourceExhausted", kind, v.Closes, code)
+			w.Violate("C09", "hostile-overrun-not-refused", "overrun %s (announcing a window of %d for the other direction): the overrunning RPC got %d close frame(s), status %s; want exactly one ResourceExhausted", kind, c.p("announce", W), v.Closes, code)
 		}
 	} else {
 		w.Stat("overrun_expected_ok", 1)
